@@ -31,6 +31,12 @@ var c11Errors = []string{
 	"-MISCONF Redis is configured to save RDB snapshots\r\n",
 	"-ERR\r\n",
 	"-E\r\n",
+	// long error lines (the real MISCONF text, a Lua script error, 128 / 1100 / 5000 bytes)
+	"-MISCONF Redis is configured to save RDB snapshots, but it's currently unable to persist to disk. Commands that may modify the data set are disabled, because this instance is configured to report errors during writes if RDB snapshotting fails (stop-writes-on-bgsave-error option). Please check the Redis logs for details about the RDB error.\r\n",
+	"-ERR Error running script (call to f_5a8b1c2d3e4f5a6b7c8d9e0f1a2b3c4d5e6f7a8b): @user_script:1: user_script:1: attempt to compare nil with number \r\n",
+	"-ERR " + strings.Repeat("x", 128-7) + "\r\n",
+	"-ERR " + strings.Repeat("y", 1100) + "\r\n",
+	"-ERR " + strings.Repeat("z", 5000) + "\r\n",
 }
 
 func c11Scenario(kind string, nfrag int, errNodes []string, errIdx int, bound int) *world.Scenario {
@@ -123,7 +129,26 @@ func subsets(xs []string) [][]string {
 func c11Scenarios(tier string) []*world.Scenario {
 	var out []*world.Scenario
 	for ei := range c11Errors {
-		out = append(out, c11Scenario("get", 1, []string{AddrA}, ei, -1))
+		sc := c11Scenario("get", 1, []string{AddrA}, ei, -1)
+		if len(c11Errors[ei]) > 100 {
+			// long error lines: once delivered in one read (every interleaving), once through a 64-byte read buffer (bounded)
+			sc.ReadCap, sc.WriteCap = 65536, 65536
+			sc.Name += "/one-read"
+			out = append(out, sc)
+			sc = c11Scenario("get", 1, []string{AddrA}, ei, 2)
+			sc.Name += "/64-byte-reads"
+			out = append(out, sc)
+			for _, kind := range []string{"mget", "del", "mset"} {
+				for _, nf := range []int{1, 2} {
+					sm := c11Scenario(kind, nf, []string{AddrA}, ei, 2)
+					sm.ReadCap, sm.WriteCap = 65536, 65536
+					sm.Name += "/one-read"
+					out = append(out, sm)
+				}
+			}
+			continue
+		}
+		out = append(out, sc)
 	}
 	errs := []int{0, 1, 2, 3, 10, 16}
 	if tier == "thorough" {
